@@ -246,7 +246,7 @@ func TestVerif_C14_InterleavedMembership(t *testing.T) {
 		go func() { wg.Wait(); close(done) }()
 		if r := awaitAll(done); r != "" {
 			if strings.HasPrefix(r, "deadlock") {
-				t.Fatalf("C14 (schedule): %s", r)
+				deadlockWitness(c14sRec, fmt.Sprintf("property=C13 (seen by the C14 schedule harness) members=%d parked=%s(%s) in %s.%s#%d: %s", nInitial, firstKind, firstSubject.id, parkAt.id, parkWhat, parkNth, r))
 			}
 			c14sRec.Class("inconclusive_timeout")
 			return
